@@ -151,22 +151,30 @@ def _run_cli(cmd, smt2, timeout_s):
 def discharge_one(args):
     name, smt2, budget_s, want_model, portfolio = args
     trail = []
-    try:
-        res, secs, model, reason = _run_z3_api(smt2, int(budget_s * 1000), want_model)
-    except Exception as e:  # parser or solver crash
-        res, secs, model, reason = 'error', 0.0, None, repr(e)
-    trail.append(('z3-%s' % z3.get_version_string(), res, round(secs, 3)))
-    if res in ('unsat', 'sat') or not portfolio:
-        return name, res, trail, model, reason
-    # same solver, other heuristics
-    for vi, params in enumerate(VARIANTS):
+    # two rounds: every configuration first gets a short budget (a query that the default heuristics do not settle
+    # within seconds is usually immediate under another seed), then the full one
+    short = min(3.0, budget_s)
+    rounds = [short] if (not portfolio or short >= budget_s) else [short, budget_s]
+    reason = ''
+    for rnd, b in enumerate(rounds):
+        if not portfolio and rnd == 0:
+            b = budget_s
         try:
-            res2, secs, model2, reason2 = _run_z3_api(smt2, int(budget_s * 1000), want_model, params)
-        except Exception as e:
-            res2, secs, model2, reason2 = 'error', 0.0, None, repr(e)
-        trail.append(('z3-%s/v%d' % (z3.get_version_string(), vi + 1), res2, round(secs, 3)))
-        if res2 in ('unsat', 'sat'):
-            return name, res2, trail, model2, reason2
+            res, secs, model, reason = _run_z3_api(smt2, int(b * 1000), want_model)
+        except Exception as e:  # parser or solver crash
+            res, secs, model, reason = 'error', 0.0, None, repr(e)
+        trail.append(('z3-%s' % z3.get_version_string(), res, round(secs, 3)))
+        if res in ('unsat', 'sat') or not portfolio:
+            return name, res, trail, model, reason
+        # same solver, other heuristics
+        for vi, params in enumerate(VARIANTS):
+            try:
+                res2, secs, model2, reason2 = _run_z3_api(smt2, int(b * 1000), want_model, params)
+            except Exception as e:
+                res2, secs, model2, reason2 = 'error', 0.0, None, repr(e)
+            trail.append(('z3-%s/v%d' % (z3.get_version_string(), vi + 1), res2, round(secs, 3)))
+            if res2 in ('unsat', 'sat'):
+                return name, res2, trail, model2, reason2
     # portfolio on unknown / timeout
     if shutil.which('/usr/bin/z3'):
         out, secs = _run_cli(['/usr/bin/z3', '-T:%d' % int(budget_s * 3)], smt2, budget_s * 3 + 5)
